@@ -8,8 +8,8 @@
      daemon                  after a kill the daemon's Start guard reaches its minute guard: neither "already running" nor an
                              error (full statement since fix 3aa388e; before it: finding F7a)
      restartable             after a kill the probe says not running and the bind (after unlink) succeeds
-     final_partial/refuted   a complete run persists its final state - unless a stale snapshot was in flight (F8b/F8c, not
-                             repaired) *)
+     final                   a complete run persists - and is afterwards reported with - its final state (full statement since
+                             fix 7f2c2d0; before it: findings F8b/F8c) *)
 From Coq Require Import List Arith Bool PeanoNat Lia.
 Import ListNotations.
 From BD.Status Require Import Model.
@@ -395,7 +395,7 @@ Qed.
    finding F8a: the history said `finished`, the second step never started.  Now the snapshot says `running`, shown as failed. *)
 Definition f8a_trace : list alabel :=
   [LOpen; LWriteS0; LBind; LSched AStart; LSched (ALaunch 0); LSched (AEnd 0 true); LSched ADoneSend;
-   LNotify; LCOv; LCTbl; LCAppend].
+   LNotify; LCLock; LCOv; LCTbl; LCAppend].
 
 Example f8a_trace_now_failed : exists st,
   exec (init 2 SockAbsent) f8a_trace = Some st /\ s_ov (fst (report 2 (after_kill st))) = OError /\
@@ -407,7 +407,7 @@ Proof. eexists. split; [vm_compute; reflexivity|]. vm_compute. auto. Qed.
 Example torn_snapshot_now_failed : exists st,
   exec (init 2 SockAbsent)
     [LOpen; LWriteS0; LBind; LSched AStart; LSched (ALaunch 0); LSched (AEnd 0 true); LSched ADoneSend;
-     LNotify; LCOv; LSched (ALaunch 1); LCTbl; LCAppend] = Some st /\
+     LNotify; LCLock; LCOv; LSched (ALaunch 1); LCTbl; LCAppend] = Some st /\
   s_ov (fst (report 2 (after_kill st))) = OError /\
   map nst (s_tbl (fst (report 2 (after_kill st)))) = [NSuccess; NRunning].
 Proof. eexists. split; [vm_compute; reflexivity|]. vm_compute. auto. Qed.
@@ -418,7 +418,7 @@ Example crash_nonvacuous :
                 s_ov (fst (report 2 (after_kill st))) = OSuccess /\ all_succeed (tbl (sc st)) = true.
 Proof.
   exists [LOpen; LWriteS0; LBind; LSched AStart; LSched (ALaunch 0); LSched (ALaunch 1); LSched (AEnd 0 true);
-          LSched (AEnd 1 true); LSched ADoneSend; LNotify; LCOv; LCTbl; LCAppend].
+          LSched (AEnd 1 true); LSched ADoneSend; LNotify; LCLock; LCOv; LCTbl; LCAppend].
   eexists. split; [vm_compute; reflexivity|]. vm_compute. auto.
 Qed.
 
@@ -490,19 +490,10 @@ Proof. eexists. split; [vm_compute; reflexivity|]. vm_compute. auto. Qed.
 Lemma sstep_returned : forall s l, sph s = SReturned -> sstep s l = None.
 Proof. intros s l H. destruct l; simpl; rewrite H; try reflexivity; destruct (st_at (tbl s) i); reflexivity. Qed.
 
-Lemma sstep_to_returned : forall s l s', sstep s l = Some s' ->
-  (sph s' = SReturned -> False) \/ (l = AReturn /\ sph s' = SReturned).
-Proof.
-  intros s l s' H. sstep_cases H; unfold set_st; simpl; try (left; congruence). right; auto.
-Qed.
-
 Definition cur (st : astate) : snap := snap_of (sc st).
 
+(* since 7f2c2d0: the main thread's final snapshot is taken after Schedule returned, and nothing is appended after it *)
 Definition InvF (st : astate) : Prop :=
-  (* snapshots still waiting for the writer's lock after Schedule returned are current *)
-  (sph (sc st) = SReturned ->
-     (forall s, fs st = FComputed s -> s = cur st) /\ (forall s, cp st = CComputed s -> s = cur st) /\
-     (forall o, fs st = FOv o -> o = ov_of (sc st)) /\ (forall o, cp st = COv o -> o = ov_of (sc st))) /\
   (4 <= mrank (mp st) -> sph (sc st) = SReturned) /\
   (1 <= mrank (mp st) <= 10 -> orig st = true /\ wclosed st = false) /\
   (mrank (mp st) <= 8 -> cfile st = None) /\
@@ -521,24 +512,22 @@ Qed.
 Lemma append_last : forall st s, orig st = true -> wclosed st = false -> last_line (append st s) = Some s.
 Proof. intros st s Ho Hw. unfold append. rewrite Ho, Hw. apply last_line_app. Qed.
 
-Lemma InvF_step : forall st l st',
-  InvF st -> (l = LSched AReturn -> quiet st = true) -> astep st l = Some st' -> InvF st'.
+Lemma InvF_step : forall st l st', InvF st -> astep st l = Some st' -> InvF st'.
 Proof.
-  intros st l st' (R & P4 & OW & CN & FC & LL & CR & CC & CF & OF) Hq H.
-  astep_cases H; unfold InvF, cur in *; simpl in *;
+  intros st l st' (P4 & OW & CN & FC & LL & CR & CC & CF & OF) H.
+  astep_cases H; unfold InvF, cur, finished in *; simpl in *;
     repeat match goal with
            | H : mp _ = _ |- _ => rewrite H in *
            | H : fs _ = _ |- _ => rewrite H in *
            | H : cp _ = _ |- _ => rewrite H in *
            end; simpl in *.
   all: try (match goal with H : recv _ = Some _ |- _ =>
-              pose proof (recv_snap _ _ H) as Hsn; pose proof (recv_ov _ _ H) as Hovn;
-              apply recv_tbl in H; destruct H as (_ & _ & _ & Hph);
-              rewrite ?Hsn, ?Hovn, ?Hph in * end).
+              pose proof (recv_snap _ _ H) as Hsn; apply recv_tbl in H; destruct H as (_ & _ & _ & Hph);
+              rewrite ?Hsn, ?Hph in * end).
   all: try (match goal with H : sstep ?s ?a = Some ?s' |- _ =>
               assert (Hnr : sph s <> SReturned) by (intro Hx; rewrite (sstep_returned _ a Hx) in H; discriminate) end).
-  (* facts available before the step, as equations *)
-  all: try (assert (Hret : sph (sc st) = SReturned) by (apply P4; lia); destruct (R Hret) as (R1 & R2 & R3 & R4)).
+  all: try (match goal with H : (_ <=? _) = true |- _ => apply Nat.leb_le in H end).
+  all: try (match goal with H : (_ <=? _) = false |- _ => apply Nat.leb_gt in H end).
   all: try (pose proof (LL ltac:(lia)) as HLL).
   all: try (destruct (OW ltac:(lia)) as [Ho Hw]).
   all: try (pose proof (CF ltac:(lia)) as HCF).
@@ -547,41 +536,20 @@ Proof.
   all: try (pose proof (FC _ eq_refl) as HFC).
   all: try (pose proof (CR _ eq_refl) as HCR).
   all: try (pose proof (CC _ eq_refl) as HCC).
-  all: try (match goal with K : fs _ = FComputed ?s |- _ => pose proof (R1 _ K) end).
-  all: try (match goal with K : cp _ = CComputed ?s |- _ => pose proof (R2 _ K) end).
-  all: try (match goal with K : fs _ = FOv ?s |- _ => pose proof (R3 _ K) end).
-  all: try (match goal with K : cp _ = COv ?s |- _ => pose proof (R4 _ K) end).
-  all: try (match goal with Hs : sstep _ ?a = Some _ |- _ =>
-              destruct (sstep_to_returned _ _ _ Hs) as [Hsame|[Ha Hqq]];
-              [ | subst a; specialize (Hq eq_refl); unfold quiet in Hq; apply andb_true_iff in Hq; destruct Hq as [Hq1 Hq2] ] end).
   all: repeat split; intros; subst; try lia; try congruence; try discriminate; auto.
   all: try solve [rewrite append_last; congruence].
-  all: try solve [match goal with K : fs _ = FComputed _ |- _ => rewrite K in *; discriminate end].
-  all: try solve [match goal with K : cp _ = CComputed _ |- _ => rewrite K in *; discriminate end].
-  all: try solve [match goal with K : fs _ = FOv _ |- _ => rewrite K in *; discriminate end].
-  all: try solve [match goal with K : cp _ = COv _ |- _ => rewrite K in *; discriminate end].
-  all: try solve [match goal with K : sph ?s = SReturned, K2 : sph ?s <> SReturned |- _ => contradiction end].
-  all: try solve [match goal with K : sph _ = SReturned |- _ => destruct (R K) as (Q1 & Q2 & Q3 & Q4); eauto end].
+  all: try solve [apply P4; lia].
   all: try solve [apply OW; lia].
-  all: try solve [match goal with K : sph _ = SReturned |- _ => destruct (R K) as (Q1 & Q2 & Q3 & Q4); rewrite append_last; try (apply OW; lia); f_equal; eauto end].
-  all: try solve [assert (Hr : sph (sc st) = SReturned) by (apply P4; lia); destruct (R Hr) as (Q1 & Q2 & Q3 & Q4);
-                  rewrite append_last; try (apply OW; lia); f_equal; first [apply Q1; reflexivity | apply Q2; reflexivity]].
-  all: try solve [destruct (R eq_refl) as (Q1 & Q2 & Q3 & Q4); eauto].
-  all: try solve [match goal with K : FComputed _ = FComputed _ |- _ => inversion K; subst end;
-                  destruct (R ltac:(assumption)) as (Q1 & Q2 & Q3 & Q4); rewrite (Q3 _ eq_refl); reflexivity].
-  all: try solve [match goal with K : CComputed _ = CComputed _ |- _ => inversion K; subst end;
-                  destruct (R ltac:(assumption)) as (Q1 & Q2 & Q3 & Q4); rewrite (Q4 _ eq_refl); reflexivity].
+  all: try solve [exfalso; match goal with K : 4 <= _ |- _ => specialize (P4 K); congruence end].
+  all: try solve [exfalso; match goal with K : match mrank ?m with _ => _ end = false |- _ =>
+                    destruct (mrank m) as [|[|[|[|[|k]]]]]; simpl in K; try discriminate; lia end].
 Qed.
 
-Lemma InvF_exec : forall ls st st',
-  InvF st -> quiet_at_return st ls = true -> exec st ls = Some st' -> InvF st'.
+Lemma InvF_exec : forall ls st st', InvF st -> exec st ls = Some st' -> InvF st'.
 Proof.
-  intros ls; induction ls as [|l r IH]; intros st st' I Hq He; simpl in *.
+  intros ls; induction ls as [|l r IH]; intros st st' I He; simpl in *.
   - inversion He; subst; auto.
-  - destruct (astep st l) as [st1|] eqn:Hs; [|discriminate].
-    apply andb_true_iff in Hq. destruct Hq as [Hh Hr].
-    eapply IH; [|exact Hr|exact He]. eapply InvF_step; eauto.
-    intro E; subst l. exact Hh.
+  - destruct (astep st l) as [st1|] eqn:Hs; [|discriminate]. eapply IH; [|exact He]. eapply InvF_step; eauto.
 Qed.
 
 Lemma sock_down_exec : forall ls st0 st1,
@@ -596,18 +564,17 @@ Proof.
       apply I; lia.
 Qed.
 
-(* C08_final: after a complete run (the writer has been closed) the persisted status is the final state of the run -
-   PROVIDED no snapshot computed before Schedule returned was still waiting for the writer's lock at that moment *)
-Theorem final_partial : forall n s0 ls st,
+(* C08_final - the full statement (since fix 7f2c2d0; before it false when a snapshot computed earlier was appended after the
+   final status: findings F8b/F8c).  After a complete run (the writer has been closed) the persisted status is the final state
+   of the run, and that is what is reported.  No premise. *)
+Theorem final : forall n s0 ls st,
   exec (init n s0) ls = Some st ->
-  quiet_at_return (init n s0) ls = true ->
   mp st = MClosed ->
   persisted st = PSnap (snap_of (sc st)) /\
   report n st = (correct (snap_of (sc st)), false).
 Proof.
-  intros n s0 ls st He Hq Hm.
-  pose proof (InvF_exec _ _ _ (InvF_init n s0) Hq He) as (R & P4 & OW & CN & FC & LL & CR & CC & CF & OF).
-  pose proof (InvL_exec _ _ _ (InvL_init n s0) He) as (A & B & C).
+  intros n s0 ls st He Hm.
+  pose proof (InvF_exec _ _ _ (InvF_init n s0) He) as (P4 & OW & CN & FC & LL & CR & CC & CF & OF).
   rewrite Hm in *. simpl in *.
   assert (Ho : orig st = false) by (apply OF; lia).
   assert (Hc : cfile st = Some [cur st]) by (apply CF; lia).
@@ -616,40 +583,41 @@ Proof.
   split; auto.
   unfold report, reported. rewrite Hp.
   destruct (alive st) eqn:Ha; auto.
-  (* the socket is not bound any more *)
   exfalso. unfold alive in Ha. destruct (sock st) eqn:E; try discriminate.
   eapply (sock_down_exec ls (init n s0) st); eauto; simpl; try lia. rewrite Hm; simpl; lia.
 Qed.
 
-(* the full statement (no premise) is false: chain of two steps; the "first status" goroutine computes its snapshot while
-   the second step runs, the run finishes and the final status is written, then the stale snapshot is appended and
-   becomes - through the compaction - THE persisted status of the run: `running`, shown as `failed` (F8b) *)
-Definition f8b_trace : list alabel :=
-  [LOpen; LWriteS0; LBind; LSched AStart; LSched (ALaunch 0); LSched (AEnd 0 true); LSched ADoneSend; LNotify; LCOv; LCTbl; LCAppend;
+(* before fix 7f2c2d0 the witness of F8b: the "first status" goroutine computed its snapshot (`running`) while the second step
+   ran, the run finished, the final status was written, then the stale snapshot was appended and compacted as the status of
+   the run.  Now the goroutine holds statusLock from before its Status() until after its Write: the main thread cannot take
+   its final snapshot in between ... *)
+Definition f8b_prefix : list alabel :=
+  [LOpen; LWriteS0; LBind; LSched AStart; LSched (ALaunch 0); LSched (AEnd 0 true); LSched ADoneSend; LNotify; LCLock; LCOv; LCTbl; LCAppend;
    LSched (ALaunch 1); LFsWake; LFsOv; LFsTbl;
-   LSched (AEnd 1 true); LSched ADoneSend; LNotify; LCOv; LCTbl; LCAppend; LSched AWait; LSched AReturn;
-   LFinalCompute; LFinalAppend; LFsAppend; LFinish; LUnbind; LCompactRead; LCompactCreate; LCompactWrite; LCompactUnlink; LCloseWriter].
+   LSched (AEnd 1 true); LSched ADoneSend; LNotify; LSched AWait; LSched AReturn].
 
-Theorem final_refuted : exists ls st,
-  exec (init 2 SockAbsent) ls = Some st /\ mp st = MClosed /\
-  all_succeed (tbl (sc st)) = true /\ s_ov (snap_of (sc st)) = OSuccess /\
-  persisted st <> PSnap (snap_of (sc st)) /\
-  s_ov (fst (report 2 st)) = OError /\ map nst (s_tbl (fst (report 2 st))) = [NSuccess; NRunning].
-Proof.
-  exists f8b_trace. eexists. split; [vm_compute; reflexivity|]. vm_compute.
-  repeat split; auto. intro H; discriminate.
-Qed.
+Example f8b_main_must_wait :
+  (exists st, exec (init 2 SockAbsent) f8b_prefix = Some st /\ locked st = true) /\
+  exec (init 2 SockAbsent) (f8b_prefix ++ [LFinalLock]) = None /\
+  exec (init 2 SockAbsent) (f8b_prefix ++ [LCLock]) = None.
+Proof. split; [eexists; split; vm_compute; reflexivity|]. split; vm_compute; reflexivity. Qed.
 
-Example final_partial_premise_satisfiable : exists ls st,
-  exec (init 2 SockAbsent) ls = Some st /\ quiet_at_return (init 2 SockAbsent) ls = true /\ mp st = MClosed /\
-  s_ov (fst (report 2 st)) = OSuccess.
-Proof.
-  exists [LOpen; LWriteS0; LBind; LSched AStart; LSched (ALaunch 0); LSched (AEnd 0 true); LSched ADoneSend; LNotify; LCOv; LCTbl; LCAppend;
-          LSched (ALaunch 1); LFsWake; LFsOv; LFsTbl; LFsAppend;
-          LSched (AEnd 1 true); LSched ADoneSend; LNotify; LCOv; LCTbl; LCAppend; LSched AWait; LSched AReturn;
-          LFinalCompute; LFinalAppend; LFinish; LUnbind; LCompactRead; LCompactCreate; LCompactWrite; LCompactUnlink; LCloseWriter].
-  eexists. split; [vm_compute; reflexivity|]. vm_compute. auto.
-Qed.
+(* ... and the run ends with its final state persisted and reported *)
+Example f8b_trace_now_final : exists st,
+  exec (init 2 SockAbsent)
+    (f8b_prefix ++ [LFsAppend; LCLock; LCOv; LCTbl; LCAppend; LFinalLock; LFinalCompute; LFinalAppend; LFinish; LUnbind;
+                    LCompactRead; LCompactCreate; LCompactWrite; LCompactUnlink; LCloseWriter]) = Some st /\
+  mp st = MClosed /\ persisted st = PSnap (snap_of (sc st)) /\ s_ov (fst (report 2 st)) = OSuccess /\
+  map (fun x => s_ov x) (file st) = [ONone; ORunning; ORunning; OSuccess; OSuccess].
+Proof. eexists. split; [vm_compute; reflexivity|]. vm_compute. auto. Qed.
+
+(* a snapshot goroutine that comes after the final status (finished flag set) appends nothing *)
+Example late_snapshot_not_appended : exists st st',
+  exec (init 1 SockAbsent)
+    [LOpen; LWriteS0; LBind; LSched AStart; LSched (ALaunch 0); LSched (AEnd 0 true); LSched ADoneSend; LNotify; LSched AWait;
+     LSched AReturn; LFinalLock; LFinalCompute; LFinalAppend] = Some st /\
+  exec st [LCLock; LCOv; LCTbl; LCAppend; LFsWake; LFsOv; LFsTbl; LFsAppend] = Some st' /\ file st' = file st /\ length (file st) = 2.
+Proof. eexists. eexists. split; [vm_compute; reflexivity|]. vm_compute. auto. Qed.
 
 (* ---- the daemon's Start guard and restart ---------------------------------------------------------------- *)
 (* C08_daemon: after a kill anywhere the daemon's Start neither takes the DAG for running nor fails on the history: it reaches
@@ -675,8 +643,8 @@ Proof. eexists. split; [vm_compute; reflexivity|]. split; vm_compute; reflexivit
    the empty twin would be skipped *)
 Example kill_inside_compaction : exists st,
   exec (init 1 SockAbsent)
-    [LOpen; LWriteS0; LBind; LSched AStart; LSched (ALaunch 0); LSched (AEnd 0 true); LSched ADoneSend; LNotify; LCOv; LCTbl; LCAppend;
-     LSched AWait; LSched AReturn; LFinalCompute; LFinalAppend; LFinish; LUnbind; LCompactRead; LCompactCreate] = Some st /\
+    [LOpen; LWriteS0; LBind; LSched AStart; LSched (ALaunch 0); LSched (AEnd 0 true); LSched ADoneSend; LNotify; LCLock; LCOv; LCTbl; LCAppend;
+     LSched AWait; LSched AReturn; LFinalLock; LFinalCompute; LFinalAppend; LFinish; LUnbind; LCompactRead; LCompactCreate] = Some st /\
   cfile st = Some [] /\ orig st = true /\
   report 1 (after_kill st) = (snap_of (sc st), false) /\ s_ov (snap_of (sc st)) = OSuccess.
 Proof. eexists. split; [vm_compute; reflexivity|]. vm_compute. auto. Qed.
